@@ -42,7 +42,7 @@ multisec_regex = re.compile(
     (
         # What comes between sections ('through', 'and', etc.). Captures named
         # groups 'through' and 'and' for those words or equivalent symbols.
-        ({intervener_regex.pattern})+   # IMPORTANT: Allow more than one intervener
+        ({intervener_regex.pattern})+\s*   # IMPORTANT: Allow more than one intervener
                                         # to keep matching multisec to the right!
 
         ({no_num_sec_regex.pattern}     # The word or abbreviation "Section" (optional)
